@@ -108,6 +108,6 @@ D_OldDedupExact ==
 
 (* behaviours for the real code: every list of the pool, once (exhaustive small scope) *)
 EmitAll == (Emit /\ Len(hist) >= 1) =>
-             PrintT("VPOUT " \o ToJson([sc |-> "exh", cfg |-> [ap |-> Ap, ext |-> Limit = 65535, collide |-> FALSE],
+             PrintT("VPOUT " \o ToJson([sc |-> "exh", cfg |-> [ap |-> Ap, ext |-> Limit = 65535, collide |-> FALSE, as2 |-> FALSE],
                                         changes |-> hist]))
 =============================================================================
